@@ -3,6 +3,9 @@
     seq <min> <max> <n> {op}*        op = S <worker|-> | F <job> | C
         after every op all workers are run to rest; prints one snapshot per op, separated by " ; "
         (`S w`: the real pool's set.pop() chose worker w; the model is told the same choice)
+        the same ops are also executed with the pool methods TRANSCRIBED from the source (Gen/C18Src.lean,
+        `PoolSrc.stepSrc`); if that gives other snapshots the line is prefixed with "SRC-DIFF" (cannot happen
+        while `C18_source_run` is proved; gives a broken proof a concrete failing input)
     outs <min> <max> <progA> <progB>  prog = comma separated S | F<job> | C   ("-" = empty)
         every interleaving of the two client threads and all workers (coarse semantics); prints the
         sorted set of snapshots of the states in which nothing can move any more, separated by " ; "
@@ -15,6 +18,8 @@
 -/
 import PyroModel.Pool
 import PyroModel.PoolConn
+import PyroModel.PoolSrc
+import PyroModel.Gen.C18Src
 import Driver.Util
 import Std.Data.HashSet
 
@@ -86,6 +91,20 @@ def runSeq (mn mx : Nat) (ops : List Op) : List String :=
       snap s1 :: go s1 rest
   snap (settle mn mx 14 (init mn)) :: go (init mn) ops
 
+def applyOpSrc (mn mx : Nat) (s : St) : Op → St
+  | .S w => PoolSrc.stepSrc Gen.C18Src.impl mn mx s (.submit (pickFor s w))
+  | .F j => PoolSrc.stepSrc Gen.C18Src.impl mn mx s (.finish j)
+  | .C => PoolSrc.stepSrc Gen.C18Src.impl mn mx s .close
+
+/-- the same, with the pool methods as transcribed from the source -/
+def runSeqSrc (mn mx : Nat) (ops : List Op) : List String :=
+  let rec go (s : St) : List Op → List String
+    | [] => []
+    | op :: rest =>
+      let s1 := PoolSrc.settleSrc Gen.C18Src.impl mn mx 14 (applyOpSrc mn mx s op)
+      snap s1 :: go s1 rest
+  snap (PoolSrc.settleSrc Gen.C18Src.impl mn mx 14 (init mn)) :: go (init mn) ops
+
 structure Node where
   st : St
   a : List Op
@@ -148,7 +167,10 @@ def step' : List String → String
   | ["accept", ct, full, r] => effStr (PoolConn.acceptStep (ct == "1") (full == "1") (r == "1"))
   | "seq" :: mn :: mx :: n :: rest =>
     match mn.toNat?, mx.toNat?, n.toNat?.bind (fun k => parseSeq k rest) with
-    | some mn, some mx, some ops => " ; ".intercalate (runSeq mn mx ops)
+    | some mn, some mx, some ops =>
+      let a := runSeq mn mx ops
+      let b := runSeqSrc mn mx ops
+      if a == b then " ; ".intercalate a else "SRC-DIFF " ++ " ; ".intercalate b
     | _, _, _ => "bad-op"
   | ["outs", mn, mx, pa, pb] =>
     match mn.toNat?, mx.toNat?, parseProg pa, parseProg pb with
